@@ -1010,12 +1010,12 @@ func (w *World) computeEnabled() []Trans {
 	}
 	if w.Opt.Clock == ClockLapse {
 		_, timers := w.nextTimerEvent()
-		if timers {
-			if len(out) == 0 {
-				out = append(out, Trans{Clock: true})
-			} else if w.LateUsed < w.Opt.LateBudget && w.Clock < w.Opt.Horizon {
-				out = append(out, Trans{Clock: true, Late: true})
-			}
+		if timers && len(out) == 0 {
+			out = append(out, Trans{Clock: true})
+		} else if len(out) > 0 && w.LateUsed < w.Opt.LateBudget && w.Clock < w.Opt.Horizon {
+			// a late tick: time passes although somebody could move (also when no
+			// timer is pending: real clocks advance between any two reads)
+			out = append(out, Trans{Clock: true, Late: true})
 		}
 	}
 	w.enabled = out
@@ -1122,6 +1122,9 @@ func (w *World) apply(tr Trans) {
 		if tr.Late {
 			w.LateUsed++
 			to = w.Clock + w.Opt.Unit
+			if to < w.Clock {
+				to = 1<<63 - 1
+			}
 			if ev, ok := w.nextTimerEvent(); ok && ev < to && ev > w.Clock {
 				to = ev
 			}
@@ -1572,7 +1575,11 @@ func SleepNS(d int64) {
 		w.op(&pending{kind: OpYield})
 		return
 	}
-	w.op(&pending{kind: OpSleep, until: w.Clock + d})
+	until := w.Clock + d
+	if until < w.Clock {
+		until = 1<<63 - 1 // the virtual clock saturates at the top of int64
+	}
+	w.op(&pending{kind: OpSleep, until: until})
 }
 
 // TickerHandle is the scheduler side of a vtime.Ticker / Timer.
